@@ -206,8 +206,19 @@ class Scenario:
                               f"{st.remove_tunnel_delay + 1:.0f} s later an outside socket of X's exit is still open")
             # U keeps carrying data during the whole period
             t_end = t_td + D
+            chat: list = []
             while loop.time() < t_end:
                 await asyncio.sleep(10.0)
+                if c.get("chatter"):
+                    for nd in path:
+                        for cid in x_ids.get(nd.idx, []):
+                            sock = nd.overlay.exit_sockets.get(cid)
+                            if sock is not None and sock.transport_ipv4 is not None and sock.transport_ipv4 not in chat:
+                                chat.append(sock.transport_ipv4)
+                for t in chat:
+                    # the outside world keeps answering X's exit socket (it knows nothing about the circuit's fate)
+                    if not t.closed:
+                        t.inject(b"d1:rd2:id20:abcdefghij0123456789e1:t2:aa1:y1:re", ("5.5.5.5", 5555))
                 if u.state == "READY":
                     origin_u.overlay.send_data(u.hop.address, u.circuit_id, ("6.6.6.6", 6666), ("0.0.0.0", 0), b"d1:ue")
             w.net.on_send = None
@@ -242,12 +253,12 @@ class Scenario:
             if w.net.escaped:
                 e = w.net.escaped[0][3]
                 self.fail("R1", "exception:" + type(e).__name__, f"{type(e).__name__}: {e} escaped the receive path")
-            self.info["nontrivial"] = bool(control_hit) or td == "vanish" or race is not None
+            self.info["nontrivial"] = bool(control_hit) or td == "vanish" or race is not None or bool(chat)
             self.info["cls"] = "%dhop/%s/%s/%dfaults%s%s" % (hops, c["phase"], td, len(c["faults"]),
                                                             "/demand" if c.get("demand") else "",
-                                                            "/race" if race is not None else "")
+                                                            "/race" if race is not None else "/chatter" if c.get("chatter") else "")
             self.info["desc"] = (hops, c["phase"], td, tuple(map(tuple, c["faults"])), bool(c.get("demand")),
-                                 tuple(race) if race is not None else None)
+                                 tuple(race) if race is not None else None, bool(c.get("chatter")))
         finally:
             w.net.on_send = None
             await w.close()
@@ -372,6 +383,10 @@ def _enum_shard(ctx: Ctx, shard: int, nshards: int, which: int, pairs: bool) -> 
         for n in range(24):
             for kind in KINDS:
                 jobs.append({**s, "seed": 5, "faults": [[n, kind]]})
+        if s["phase"] == "transfer":
+            jobs.append({**s, "seed": 5, "faults": [], "chatter": 1})
+            for n in range(0, 24, 4):
+                jobs.append({**s, "seed": 5, "faults": [[n, "drop"]], "chatter": 1})
         if s["phase"] == "ready" and s["teardown"] in ("originator", "relay0", "exit"):
             for lat4, lat6 in ((0, 0), (2, 5), (5, 2), (3, 3)):
                 for gap in (0, 1, 3, 4, 6):
@@ -398,7 +413,8 @@ def _strategy():
                       unique_by=lambda f: f[0])
     race = st.none() | st.tuples(st.integers(0, 8), st.integers(0, 8), st.integers(0, 12)).map(list)
     scen = st.tuples(sc, st.integers(0, 1000), faults, st.booleans(), race).map(
-        lambda t: {**t[0], "seed": t[1], "faults": t[2], "demand": t[3], **({"race": t[4]} if t[4] is not None else {})})
+        lambda t: {**t[0], "seed": t[1], "faults": t[2], "demand": t[3], **({"race": t[4]} if t[4] is not None else {}),
+                   **({"chatter": 1} if t[1] % 3 == 0 else {})})
     join = st.fixed_dictionaries({"sub": st.just("join_limit"), "limit": st.integers(1, 4), "seed": st.integers(0, 99)})
     early = st.fixed_dictionaries({"sub": st.just("relay_early"), "limit": st.integers(0, 8), "burst": st.integers(1, 20),
                                    "seed": st.integers(0, 99)})
